@@ -293,6 +293,31 @@ def shadow_recheck_rule(rep, f):
     rep.floor("C06.g", n, 2)
 
 
+def undeclare_rule(rep):
+    rep.rule("C06.h", "namespace un-declarations are prefix mappings too: in SAX2XMLReaderImpl::startElement the startPrefixMapping call "
+             "is controlled (CFG controlling conditions) only by tests that do not look *into* the namespace name — `xmlns=\"\"` (and "
+             "`xmlns:p=\"\"` in XML 1.1) must fire startPrefixMapping(prefix, \"\") or a handler that tracks scopes from these events "
+             "keeps the outer binding while the elements below are reported in no namespace")
+    tu = os.path.join(core.REPO, "src/xercesc/parsers/SAX2XMLReaderImpl.cpp")
+    g = core.run_xa([tu], cfg=r"^SAX2XMLReaderImpl::startElement$", flat=False)
+    cfg = guard.Cfg(g.cfg("SAX2XMLReaderImpl::startElement"))
+    ss = guard.sites(cfg, lambda x: x[0] == "c" and x[1].split("::")[-1] == "startPrefixMapping")
+    if not ss:
+        raise AnalysisBroken("SAX2XMLReaderImpl::startElement no longer calls startPrefixMapping")
+    for k, (bid, i, el) in enumerate(ss):
+        uri = el["x"][3][1] if len(el["x"][3]) > 1 else None
+        bad = []
+        for cond, pol, _p in guard.controlling(cfg, bid):
+            for y in sx_walk(cond):
+                if isinstance(y, list) and y and ((y[0] == "u" and y[1] == "*" and y[2] == uri) or
+                                                   (y[0] == "c" and y[1].split("::")[-1] in ("stringLen", "isEmpty") and uri in y[3]) or
+                                                   (y[0] == "x" and y[1] == uri)):
+                    bad.append(sx_str(cond))
+        rep.ob("C06.h", "startElement@startPrefixMapping:%d" % (k + 1), not bad, "fires for every xmlns attribute, empty value included" if not bad else
+               "SAX2XMLReaderImpl::startElement (line %s): startPrefixMapping is skipped when %s — a namespace un-declaration produces no "
+               "prefix-mapping event" % (el.get("l"), " / ".join(sorted(set(bad)))), "src/xercesc/parsers/SAX2XMLReaderImpl.cpp:%s" % el.get("l", 0))
+
+
 def run(rep):
     f = core.library_facts()
     rep.units.update(os.path.relpath(t, core.REPO) for t in f.tus)
@@ -302,6 +327,7 @@ def run(rep):
     nearest_rule(rep)
     declare_first_rule(rep)
     shadow_recheck_rule(rep, f)
+    undeclare_rule(rep)
     diag.run(rep, f, "C06")
     rep.undecided += ["that the URI bound to each name is the right one (scoping arithmetic in ElemStack): value-level",
                       "DOM lookupNamespaceURI/lookupPrefix results"]
